@@ -45,6 +45,7 @@ Positional(fl, vals, cfg) == LET ix == Included(fl) IN <<"list", [j \in 1..Len(i
 Dv(t, v, cfg) ==
   IF v = Nil THEN Null
   ELSE IF t.k = "prim" THEN <<Kind(t.p, cfg.fam, v[2]), v[2]>>
+  ELSE IF t.k = "enum" THEN <<IF cfg.fam \in Packed THEN "raw" ELSE "str", v[2]>>      \* the name of the value
   ELSE IF t.k = "attr" THEN Dv(t.of, v, cfg)                       \* attributes are ordinary members here
   ELSE IF t.k = "arr" THEN <<"list", DvSeq(t.of, v[2], cfg)>>
   ELSE LET rt == IF cfg.poly THEN Runtime(t, v) ELSE t
